@@ -169,7 +169,8 @@ class EquationSolver(object):
                     continue
                 try:
                     val = eval(eqn, globals(), time_zero_constants)
-                    if type(val) is int:
+                    if type(val) in (int, bool):
+                        # (A comparison gives a bool: as a number it is 1. or 0., like in the periods after this one.)
                         val = float(val)
                     if type(val) is float:
                         variables[var] = [val, ]
